@@ -161,6 +161,18 @@ def c01_programs(seed, tier):
     narrow = [rec("cartesianX", "sint", 0, 3, 0.5, 0.0), rec("cartesianY", "sint", 0, 3, 0.5, 0.0), rec("cartesianZ", "sint", 9, 9, 1.0, 0.0), rec("rowIndex", "int", 4, 4)]
     for n in ([70000] if tier == "quick" else [65536, 65537, 70000, 200000]):
         out.append(prog(f"narrow_{n}", [new(), pc(narrow, n, seed=seed), FIN]))
+    # (3g) rejected points in between (wrong arity, wrong type, out of range): the count and the data are those of the accepted ones
+    pr = xyz("single") + [rec("intensity", "int", 0, 9)]
+    good = lambda k: [v_f32(float(k)), v_f32(-float(k)), v_f32(0.5), v_int(k % 10)]
+    out.append(prog("rejected_between", [new(), pc(pr, pts=[good(0), good(1)[:3], good(2), [v_f32(1.0), v_f32(1.0), v_f32(1.0), v_int(77)], good(3),
+                                                         [v_f32(1.0), v_f32(1.0), v_f32(1.0), v_f32(1.0)], good(4)] + [good(k) for k in range(5, 20)]), FIN]))
+    # (3f) packets filled to the brim: many records per point (little room per packet) and purely bit-packed coordinates
+    many = xyz("single") + [rec(f"f{i}", "int", 0, 255, ns="ext") for i in range(61)]
+    out.append(prog("many_records_64x2000", [new(), {"op": "ext", "ns": "ext", "url": "http://example.com/ext"}, pc(many, 2000, seed=seed), FIN]))
+    sub = xyz("single") + [rec(f"b{i}", "int", 0, 5, ns="ext") for i in range(40)]
+    out.append(prog("many_subbyte_43x6000", [new(), {"op": "ext", "ns": "ext", "url": "http://example.com/ext"}, pc(sub, 6000 if tier == "quick" else 20000, seed=seed + 1), FIN]))
+    packed = [rec("cartesianX", "sint", -1000000, 1000000, 0.001, 0.0), rec("cartesianY", "sint", -1000000, 1000000, 0.001, 0.0), rec("cartesianZ", "sint", -50000, 50000, 0.001, 0.0)]
+    out.append(prog("packed_sint_40000", [new(), pc(packed, 40000, seed=seed + 2), FIN]))
     # (4) empty file, empty point cloud, only blobs
     out.append(prog("empty", [new(), FIN]))
     out.append(prog("emptypc", [new(), pc(protos[0], 0), FIN]))
@@ -198,6 +210,10 @@ def c06_programs(seed, tier):
     residues = range(940, 1020, 4) if tier == "quick" else range(0, 1020, 4)
     for res in residues:
         out.append(prog(f"blobres{res}", [new(), blob(filler_for(res), 1), blob(r.choice([1, 5, 16, 200, 1100]), 2), blob(3, 3), FIN]))
+    # data sources that deliver their bytes in pieces (pipes, chained or partly consumed readers): same blob
+    for k, chunk in enumerate((1, 7, 1000, 1020, 4096, 65279, 65280, 70000)):
+        out.append(prog(f"pieces_{chunk}", [new(), blob(100 + 37 * k, 1), blob(5100, 2), blob(140000 if chunk > 60000 else 3000, 3),
+                                           image([rep("visual", 3067, salt=3, mask=700), rep("spherical", 2500, salt=5, mask=9, pw=0.1, ph=0.1)]), FIN], src_chunk=chunk))
     # blobs near the end of a file with a few hundred pages in front of them
     out.append(prog("late_blobs", [new(), blob(1600000, 1), blob(100, 2), image([rep("visual", 500, salt=3, mask=70)]), blob(9, 4), FIN]))
     # images of all four representations with and without mask, between point clouds
@@ -318,6 +334,9 @@ def c10_programs(seed, tier):
     for bad in ("", "xmlns", "a b", "ä"):
         out.append(prog(f"regext_bad_{len(out)}", [new(), {"op": "ext", "ns": bad, "url": "http://x", "nameok": False}, FIN]))
     out.append(prog("regext_dup", [new(), {"op": "ext", "ns": "e", "url": "http://x"}, {"op": "ext", "ns": "e", "url": "http://y"}, FIN]))
+    # a section header that straddles a page boundary (every call succeeds; the file must read back)
+    for res in (992, 1000, 1016):
+        out.append(prog(f"straddling_section_{res}", [new(), blob(filler_for(res), 1), pc([X, Y, Z, inten], pts=[default_point([X, Y, Z, inten], k) for k in range(5)]), FIN]))
     # prototypes at the capacity of a data packet: a point that just fits, one that does not (add_pointcloud must say so:
     # nothing could ever be written), and so many records that the capacity arithmetic itself goes below zero
     def big(name, nrec, t):
@@ -395,7 +414,7 @@ def c10_programs(seed, tier):
 SPECIAL_STRINGS = ["", " ", " \t ", "plain", "<", "&", "a<b&c>d", "]]>", "x]]>y]]>z", "\"'", "a\tb\nc", "\U0001F600\U0001D518", "<![CDATA[x]]>",
                    " pad ", "&amp;&lt;", "</name>", "%s{}\\", "äöü€", "L" * 5000,
                    # carriage returns (an XML parser turns a literal CR or CR LF into LF) and the C1 / noncharacter neighbours that ARE XML characters
-                   "a\rb", "x\r\ny", "\r", "\r\n\r", "\x7f\x85\u2028", "\ud7ff\ue000\ufffd"]
+                   "a\rb", "x\r\ny", "\r", "\r\n\r", "]]]>", "grid[row[idx[0]]]>0", "]]]]]]>]]>]>", "]]\r>]]]\r]>", "\x7f\x85\u2028", "\ud7ff\ue000\ufffd"]
 # strings XML 1.0 cannot represent at all (not even by character references): they cannot be stored faithfully
 NON_XML_STRINGS = ["\x01", "a\x00b", "tab\x0bvertical", "\x1f", "\ufffe", "x\uffffy"]
 SPECIAL_FLOATS = [0.0, -0.0, 5e-324, 2.2250738585072014e-308, 1.7976931348623157e308, -1.7976931348623157e308, float("inf"), float("-inf"),
@@ -659,6 +678,27 @@ def c14_programs(seed, tier):
                         p.append(value_for(rc, float(k - 1) * (1 + ci)))
                 pts.append(p)
             out.append(prog(f"b_constant_{cname}_{tname}", [new("g"), pc(proto, pts=pts), FIN], reals=True))
+    # index values beyond 2^53 (not representable as f64) and at the ends of i64
+    big_idx = [rec("rowIndex", "int", I64MIN, I64MAX), rec("columnIndex", "int", 0, I64MAX), rec("returnIndex", "int", -(1 << 60), 1 << 60), rec("returnCount", "int", 0, 3)]
+    for k, rows in enumerate(([(1 << 53) + 1, (1 << 53) - 1, 5], [I64MAX, I64MAX - 1, 0], [I64MIN, I64MIN + 1, -1], [-(1 << 53) - 1, 7, (1 << 62) + 3])):
+        pts = [[v_f32(float(j)), v_f32(0.0), v_f32(1.0), v_int(rw), v_int(abs(rw) // 2 if rw != I64MIN else I64MAX), v_int(max(min(rw, 1 << 60), -(1 << 60))), v_int(j % 4)] for j, rw in enumerate(rows)]
+        out.append(prog(f"b_big_index_{k}", [new("g"), pc([rec(n, "single") for n in C] + big_idx, pts=pts), FIN], reals=True))
+    # default colour limits follow each channel's own type (different types and ranges per channel)
+    for k, chans in enumerate(([rec("colorRed", "int", 0, 255), rec("colorGreen", "int", 0, 1023), rec("colorBlue", "int", 2, 17)],
+                               [rec("colorRed", "int", 0, 7), rec("colorGreen", "single", f32(0.0), f32(1.0)), rec("colorBlue", "sint", 0, 16, 0.25, 1.0)],
+                               [rec("colorRed", "double", f64(0.0), f64(2.0)), rec("colorGreen", "int", 0, 15), rec("colorBlue", "single")])):
+        proto = [rec(n, "single") for n in C] + chans
+        pts = [[v_f32(1.0), v_f32(2.0), v_f32(3.0)] + [default_value(c, j) for c in chans] for j in range(3)]
+        out.append(prog(f"b_colour_types_{k}", [new("g"), pc(proto, pts=pts), FIN], reals=True))
+    # extension records in front of, between and behind the coordinate and index records do not shift anything
+    for k, order in enumerate(((0, 1, 2), (1, 0, 2), (2, 1, 0))):
+        ext = [rec("nx", "single", ns="ext"), rec("klass", "int", 0, 255, ns="ext"), rec("w", "double", ns="ext")]
+        std = [rec(n, "double") for n in C] + idx[:2]
+        proto = [ext[order[0]]] + std[:2] + [ext[order[1]]] + std[2:4] + [ext[order[2]]] + std[4:]
+        pts = []
+        for j in range(5):
+            pts.append([default_value(rc, j) if rc["ns"] else (v_f64((j - 2) * (1.5 + i)) if rc["t"] == "double" else v_int(j * 3 + i)) for i, rc in enumerate(proto)])
+        out.append(prog(f"b_ext_in_front_{k}", [new("g"), {"op": "ext", "ns": "ext", "url": "urn:ext"}, pc(proto, pts=pts), FIN], reals=True))
     # rejected points leave no trace in the bounds: the offending value sits in a LATER record than the coordinates / indices
     for tname, mk in coord_types[:2] + coord_types[3:]:
         proto = [mk(n) for n in C + Sn] + idx[:2] + [rec("intensity", "int", 0, 9)]
@@ -826,6 +866,47 @@ def c05_programs(seed, tier):
     sets, pm = pose_parts(POSES[2])
     step = pc(proto, pts=pts, setters=sets); step["pose_matrix"] = pm
     out.append(prog("view_multi_packet", [new(), step, FIN], opts=[[True, True, False, True, True, True], [False] * 6]))
+    # rotations about axes that are not coordinate axes: quaternions with integer components (a, b, c, d) of squared norm n
+    # have the rotation matrix M / n with M integer; coordinates are multiples of n, so every image is on the lattice
+    def int_quat_matrix(q):
+        a, b, c, d = q
+        return [[a * a + b * b - c * c - d * d, 2 * (b * c - a * d), 2 * (b * d + a * c)],
+                [2 * (b * c + a * d), a * a - b * b + c * c - d * d, 2 * (c * d - a * b)],
+                [2 * (b * d - a * c), 2 * (c * d + a * b), a * a - b * b - c * c + d * d]]
+    for k, (q, tr) in enumerate((((1, 1, 1, 0), (0.0, 0.0, 0.0)), ((1, 0, 1, 1), (1.5, -2.25, 3.0)), ((2, 1, 1, 1), (0.0, 0.5, 0.0)), ((1, 2, 3, 4), (-1.0, 0.0, 8.0)),
+                                ((1, 1, 0, 1), (0.0, 0.0, 0.0)), ((0, 1, 2, 2), (4.0, 4.0, 4.0)), ((3, -1, 2, 0), (0.25, 0.0, 0.0)), ((1, -1, 1, -2), (0.0, 0.0, 0.0)))):
+        nq = sum(x * x for x in q)
+        nrm = math.sqrt(nq)
+        proto = [coord_rec(nm, "double") for nm in ("cartesianX", "cartesianY", "cartesianZ")] + [rec("intensity", "int", 0, 7)]
+        base = [(1, 0, 0), (0, 1, 0), (0, 0, 1), (1, 2, 3), (-1, 5, -7), (4, 4, 4), (0, -3, 2), (7, 0, -1)]
+        pts = [[v_f64(float(nq * x)), v_f64(float(nq * y)), v_f64(float(nq * z)), v_int(i % 8)] for i, (x, y, z) in enumerate(base)]
+        step = pc(proto, pts=pts, setters=[setter("transform", tf(tuple(x / nrm for x in q), tr))])
+        step["pose_matrix"] = {"m": int_quat_matrix(q), "den": nq, "t": [int(round(v * 1024)) for v in tr]}
+        out.append(prog(f"view_general_rotation_{k}", [new(), step, FIN], opts=[[True, True, False, True, True, True], [True, False, True, False, False, False], [False] * 6]))
+    # extension records whose local names equal standard names, behind and in front of the standard records: the view is
+    # made of the standard records only
+    for k, place in enumerate(("behind", "front", "mixed", "only_ext_intensity")):
+        std = [coord_rec(nm, "double") for nm in ("cartesianX", "cartesianY", "cartesianZ")] + [rec("intensity", "int", 0, 7), rec("rowIndex", "int", 0, 100), rec("columnIndex", "int", 0, 100)]
+        ext = [rec("intensity", "int", 0, 7, ns="fx"), rec("cartesianX", "double", ns="fx"), rec("rowIndex", "int", 0, 100, ns="fx"), rec("colorRed", "int", 0, 255, ns="fx"), rec("cartesianInvalidState", "int", 0, 2, ns="fx")]
+        if place == "behind":
+            proto = std + ext
+        elif place == "front":
+            proto = ext + std
+        elif place == "mixed":
+            proto = [ext[0], std[0], ext[1], std[1], std[2], ext[2], std[3], ext[3], std[4], std[5], ext[4]]
+        else:
+            proto = std[:3] + std[4:] + ext[:1]
+        pts = []
+        for i in range(6):
+            pt = []
+            for rc in proto:
+                if rc["ns"]:
+                    pt.append(v_f64(100.0 + i) if rc["t"] == "double" else v_int({"intensity": 7 - i, "rowIndex": 90 + i, "colorRed": 200 + i, "cartesianInvalidState": 2}[rc["name"]]))
+                else:
+                    pt.append(v_f64(float(i + 1) * {"cartesianX": 1.0, "cartesianY": -2.0, "cartesianZ": 0.5}[rc["name"]]) if rc["t"] == "double" else v_int({"intensity": i, "rowIndex": i, "columnIndex": 2 * i}[rc["name"]]))
+            pts.append(pt)
+        step = pc(proto, pts=pts); step["pose_matrix"] = None
+        out.append(prog(f"view_ext_standard_names_{place}", [new(), {"op": "ext", "ns": "fx", "url": "urn:fx"}, step, FIN], opts=[[True, True, False, True, True, True], [False] * 6, [True, True, True, True, False, False]]))
     # wide points: fewer than a thousand points per data packet
     wide = [coord_rec(n, "double") for n in ("cartesianX", "cartesianY", "cartesianZ")] + [rec("timeStamp", "double")] + \
            [rec(f"e{i}", "double", ns="ext") for i in range(5)] + [rec("intensity", "int", 0, 7)]
@@ -922,6 +1003,11 @@ def c13_programs(seed, tier):
     colour3("colour_distinct_perm", [r4, r8, r10], [(c, a, b) for (a, b, c) in vals], limits=None)
     colour3("colour_distinct_floats", [rec("c", "single", f32(0.0), f32(1.0)), rec("c", "double", f64(0.0), f64(2.0)), rec("c", "sint", 0, 16, 0.25, 1.0)],
             [(v_f32(i / 8), v_f64(i / 4), v_sint(i * 2)) for i in range(9)], limits=None)
+    # scaled-integer channels with different scales and offsets: each channel is converted with its own record type
+    colour3("colour_distinct_sints", [rec("c", "sint", 0, 40, 0.25, 1.0), rec("c", "sint", -8, 24, 0.5, -2.0), rec("c", "sint", 0, 16, 2.0, 0.25)],
+            [(v_sint(i * 4), v_sint(-8 + i * 3), v_sint(i)) for i in range(11)])
+    colour3("colour_distinct_sints_reset", [rec("c", "sint", 0, 40, 0.25, 1.0), rec("c", "sint", -8, 24, 0.5, -2.0), rec("c", "sint", 0, 16, 2.0, 0.25)],
+            [(v_sint(i * 4), v_sint(-8 + i * 3), v_sint(i)) for i in range(11)], limits=None)
     sweep("double_color_limits", rec("intensity", "double", f64(0.0), f64(8.0)), dl, color=True,
           limits={"rmin": v_f64(0.0), "rmax": v_f64(4.0), "gmin": v_f64(1.0), "gmax": v_f64(2.0), "bmin": v_f64(-2.0), "bmax": v_f64(0.0)})
     return out
